@@ -109,6 +109,20 @@ func c13NewLeaf(name string, ca *c13Cert, cn string, sans []string, expired bool
 	return c13Finish(name, tmpl, ca.X, k, ca.Key)
 }
 
+// c13NewLeafWindow makes a client certificate of ca with an explicit validity window.
+func c13NewLeafWindow(name string, ca *c13Cert, cn string, notBefore, notAfter time.Time) *c13Cert {
+	c13Serial++
+	tmpl := &x509.Certificate{
+		SerialNumber: big.NewInt(c13Serial),
+		Subject:      pkix.Name{CommonName: cn, Organization: []string{"verif C13 leaf " + name}},
+		NotBefore:    notBefore,
+		NotAfter:     notAfter,
+		KeyUsage:     x509.KeyUsageDigitalSignature,
+		ExtKeyUsage:  []x509.ExtKeyUsage{x509.ExtKeyUsageServerAuth, x509.ExtKeyUsageClientAuth},
+	}
+	return c13Finish(name, tmpl, ca.X, c13NewKey(), ca.Key)
+}
+
 // ---------------------------------------------------------------------------
 // the PKI
 
@@ -119,6 +133,11 @@ type c13PKI struct {
 	peers                map[string]*c13Cert // client certificates of the trust matrix, by kind
 	ups                  map[string]*c13Cert // upstream (reference server) certificates, by kind
 	otherKey             *ecdsa.PrivateKey   // a key that belongs to none of the certificates
+	// part trust-resume: the instant the virtual clock of a history starts from and
+	// client certificates of CA A whose validity CHANGES on that clock
+	// ("expiring": valid at base, expired from base+1h; "not-yet-valid": valid from base+1h)
+	base  time.Time
+	timed map[string]*c13Cert
 }
 
 // name classes of a TLS context (what it answers to by name)
@@ -204,6 +223,11 @@ func c13Setup() {
 			"expired":     c13NewLeaf("client-expired", p.caA, "client", nil, true),
 			// the right certificate, but the peer signs with a key it does not belong to
 			"wrong-key": {Name: "client-wrongkey", DER: right.DER, X: right.X, Key: p.otherKey, CertPEM: right.CertPEM},
+		}
+		p.base = time.Now().Truncate(time.Second)
+		p.timed = map[string]*c13Cert{
+			"expiring":      c13NewLeafWindow("client-expiring", p.caA, "client", p.base.Add(-24*time.Hour), p.base.Add(time.Hour)),
+			"not-yet-valid": c13NewLeafWindow("client-not-yet-valid", p.caA, "client", p.base.Add(time.Hour), p.base.Add(5*365*24*time.Hour)),
 		}
 		upRight := c13NewLeaf("up-right", p.caA, "up.test", []string{"up.test"}, false)
 		p.ups = map[string]*c13Cert{
